@@ -599,10 +599,18 @@ def r3_rounding(ctx, rid):
                 else:
                     raise AnalysisError(f"{rid}: quotient is wrapped by the unrecognised call `{ast.unparse(p.func)}`")
                 node = p
-            else:
-                break
+                continue
+            # `n_steps = round(...)` ... `int(n_steps)`: follow a local that is defined only here and read exactly once
+            if isinstance(p, (ast.Assign, ast.AnnAssign)) and p.value is node:
+                tg = p.targets if isinstance(p, ast.Assign) else [p.target]
+                if len(tg) == 1 and isinstance(tg[0], ast.Name):
+                    loads = [x for x in walk_shallow(f.node) if isinstance(x, ast.Name) and isinstance(x.ctx, ast.Load) and x.id == tg[0].id]
+                    if len(loads) == 1 and ctx.rd(f).defs_reaching(loads[0]) == [p]:
+                        node = loads[0]
+                        continue
+            break
         facts = {"expression": ast.unparse(node), "wrappers_inner_to_outer": chain}
-        st = node
+        st = q
         while not isinstance(st, ast.stmt):
             st = parent(st)
         if isinstance(q.op, ast.FloorDiv):
@@ -649,57 +657,86 @@ def r3_rounding(ctx, rid):
 # R4
 # ---------------------------------------------------------------------------------------------
 
-def _default_delay_literals(ctx, f):
-    """Constructs of _collect_delays_from_edges that substitute a literal for a missing (None / zero) delay."""
-    selfn = f.self_name
+def _list_of_constant(v) -> "Optional[ast.AST]":
+    """The element c of a list built as `[c] * n`, `n * [c]`, `[c]`, `[c for _ in ...]`; None if `v` is not of that form."""
+    if isinstance(v, ast.BinOp) and isinstance(v.op, ast.Mult):
+        for a in (v.left, v.right):
+            if isinstance(a, ast.List) and len(a.elts) == 1:
+                return a.elts[0]
+        return None
+    if isinstance(v, ast.List) and len(v.elts) == 1:
+        return v.elts[0]
+    if isinstance(v, ast.ListComp) and isinstance(v.elt, ast.Constant):
+        return v.elt
+    return None
+
+
+def _default_delay_literals(ctx, coll):
+    """Constructs that substitute a literal for a missing (None / zero) delay while the delays of `edges` are collected.
+    The statements are looked for in the function that reads the edge attribute 'delay' into a local: the collector itself or a
+    helper extracted from it.  Returns (scope, local, [(stmt, literal node, role)])."""
+    g, holders = U.edge_attr_scope(ctx, coll, ("delay",), exclude=_conversion_anchors(ctx))
+    d = holders["delay"]
     out = []
-    # the local that holds the edge's delay
-    dnames = set()
-    for n in walk_shallow(f.node):
-        if isinstance(n, ast.Assign) and len(n.targets) == 1 and isinstance(n.targets[0], ast.Name):
-            v = n.value
-            if isinstance(v, ast.Subscript) and const_str(v.slice) == "delay":
-                dnames.add(n.targets[0].id)
-            if isinstance(v, ast.Call) and call_name(v) in ("get", "pop") and v.args and const_str(v.args[0]) == "delay":
-                dnames.add(n.targets[0].id)
-    if len(dnames) != 1:
-        raise AnalysisError(f"{f.qual}: cannot identify the local that holds the edge delay (found {sorted(dnames)})")
-    d = dnames.pop()
 
-    def is_none_test(t, name=None):
-        return isinstance(t, ast.Compare) and len(t.ops) == 1 and isinstance(t.ops[0], ast.Is) and isinstance(t.left, ast.Name) \
-            and (name is None or t.left.id == name) and isinstance(t.comparators[0], ast.Constant) and t.comparators[0].value is None
+    def assigns_holder(st):
+        if isinstance(st, ast.Assign):
+            return any(isinstance(t, ast.Name) and t.id == d for t in st.targets)
+        return isinstance(st, ast.AnnAssign) and isinstance(st.target, ast.Name) and st.target.id == d and st.value is not None
 
-    for n in walk_shallow(f.node):
-        # (a) element-wise: [<c> if x is None else x for x in d]
-        is_not_none = isinstance(n, ast.IfExp) and isinstance(n.test, ast.Compare) and len(n.test.ops) == 1 \
-            and isinstance(n.test.ops[0], ast.IsNot) and isinstance(n.test.comparators[0], ast.Constant) and n.test.comparators[0].value is None
-        if isinstance(n, ast.IfExp) and (is_none_test(n.test) or is_not_none):
-            comp = parent(n)
-            st = n
-            while not isinstance(st, ast.stmt):
-                st = parent(st)
-            if isinstance(comp, ast.ListComp) and isinstance(st, ast.Assign) and any(isinstance(t, ast.Name) and t.id == d for t in st.targets) \
-                    and isinstance(comp.generators[0].iter, ast.Name) and comp.generators[0].iter.id == d:
-                out.append((st, n.orelse if is_not_none else n.body, "entry of a delay list is None"))
-        # (b) whole edge: if d is None or ...: d = [<c>] * n
+    for n in walk_shallow(g.node):
+        # (a) element-wise: [<c> if x is None else x for x in d]   (either polarity of the test)
+        if isinstance(n, ast.ListComp) and len(n.generators) == 1 and isinstance(n.generators[0].iter, ast.Name) \
+                and n.generators[0].iter.id == d and isinstance(n.generators[0].target, ast.Name):
+            x = n.generators[0].target.id
+            elt = n.elt
+            if not isinstance(elt, ast.IfExp):
+                continue
+            when_none = U.truth_when_none(ctx, None, elt.test, x)
+            if when_none is None:
+                if U.mentions(elt.test, x) and any(U._is_none(c) for c in ast.walk(elt.test)):
+                    raise AnalysisError(f"{g.qual}: None-test `{ast.unparse(elt.test)}` of a delay-list entry has an unrecognised form")
+                continue
+            lit, other = (elt.body, elt.orelse) if when_none else (elt.orelse, elt.body)
+            if not (isinstance(other, ast.Name) and other.id == x):
+                raise AnalysisError(f"{g.qual}: `{ast.unparse(n)}` does not keep the entries that are not None (unrecognised form)")
+            st = U.stmt_of_expr(n)
+            if not assigns_holder(st):
+                raise AnalysisError(f"{g.qual}: the delay list with its None entries replaced is not stored back into `{d}`: {norm(st)}")
+            out.append((st, lit, "None entry of a delay list", "entry of a delay list is None"))
+        # (b) whole edge, statement form: if d is None or ...: d = [<c>] * n      (or the De-Morgan'd test with swapped arms)
         if isinstance(n, ast.If):
-            tests = n.test.values if isinstance(n.test, ast.BoolOp) and isinstance(n.test.op, ast.Or) else [n.test]
-            if any(is_none_test(t, d) for t in tests):
-                for st in n.body:
-                    if isinstance(st, ast.Assign) and any(isinstance(t, ast.Name) and t.id == d for t in st.targets):
-                        v = st.value
-                        lit = None
-                        if isinstance(v, ast.BinOp) and isinstance(v.op, ast.Mult):
-                            for a in (v.left, v.right):
-                                if isinstance(a, ast.List) and len(a.elts) == 1:
-                                    lit = a.elts[0]
-                        elif isinstance(v, ast.List) and len(v.elts) == 1:
-                            lit = v.elts[0]
-                        if lit is None:
-                            raise AnalysisError(f"{f.qual}: default delay `{norm(st)}` has an unrecognised form")
-                        out.append((st, lit, "edge declares no delay (None) or delay 0"))
-    return d, out
+            when_none = U.truth_when_none(ctx, g, n.test, d)
+            if when_none is None:
+                if any(isinstance(c, ast.Compare) and U.mentions(c, d) and any(U._is_none(k) for k in c.comparators + [c.left])
+                       for c in ast.walk(n.test)):
+                    raise AnalysisError(f"{g.qual}: test `{ast.unparse(n.test)}` of the missing delay has an unrecognised form")
+                continue
+            arm = n.body if when_none else n.orelse
+            for st in arm:
+                if assigns_holder(st):
+                    lit = _list_of_constant(st.value)
+                    if lit is None:
+                        raise AnalysisError(f"{g.qual}: default delay `{norm(st)}` has an unrecognised form")
+                    out.append((st, lit, "edge without delay", "edge declares no delay (None) or delay 0"))
+        # (c) whole edge, expression form: d = [<c>] * n if d is None or ... else f(d)
+        if isinstance(n, ast.IfExp) and not isinstance(parent(n), (ast.ListComp, ast.GeneratorExp)):
+            st = U.stmt_of_expr(n)
+            if assigns_holder(st) and st.value is n:
+                when_none = U.truth_when_none(ctx, g, n.test, d)
+                if when_none is None:
+                    continue
+                v = n.body if when_none else n.orelse
+                lit = _list_of_constant(v)
+                if lit is None:
+                    raise AnalysisError(f"{g.qual}: default delay `{norm(st)}` has an unrecognised form")
+                out.append((st, lit, "edge without delay", "edge declares no delay (None) or delay 0"))
+    return g, d, out
+
+
+def _conversion_anchors(ctx):
+    cls = U.graph_class(ctx)
+    return [cls.methods[m] for m in ("_process_delays", "_preprocess_delay") if m in cls.methods]
 
 
 def r4_default_delay_matches_write_slot(ctx, rid):
@@ -718,21 +755,31 @@ def r4_default_delay_matches_write_slot(ctx, rid):
     if not slots:
         raise AnalysisError(f"{rid}: cannot read the write slot of the ring buffers in _add_edge_buffer; see C09-R1")
     f = U.method(ctx, "_collect_delays_from_edges")
-    d, lits = _default_delay_literals(ctx, f)
-    ctx.require(lits, f"{rid}: no default for missing delays found in _collect_delays_from_edges (unrecognised form)")
-    for st, lit, when in lits:
+    g, d, lits = _default_delay_literals(ctx, f)
+    ctx.require(lits, f"{rid}: no default for missing delays found in {g.qualname} (unrecognised form)")
+    seen = {}
+    for st, lit, role, when in sorted(lits, key=lambda x: (x[0].lineno, x[0].col_offset)):
         if not (isinstance(lit, ast.Constant) and isinstance(lit.value, int) and not isinstance(lit.value, bool)):
             raise AnalysisError(f"{rid}: default delay in `{norm(st)}` is not an integer literal")
-        facts = {"default_delay_steps": lit.value, "slot_holding_current_value": slots, "when": when}
+        # the construct is named by its role (which default, which literal) and anchored at the collector, whichever helper the
+        # statement lives in and however its locals are called
+        label = f"default delay {lit.value}: {role}"
+        k = seen.get(label, 0)
+        seen[label] = k + 1
+        if k:
+            label += f" #{k + 1}"
+        facts = {"default_delay_steps": lit.value, "slot_holding_current_value": slots, "when": when, "statement": norm(st),
+                 "in": g.qualname}
         wrong = sorted({s for s in slots.values() if s != lit.value})
         if not wrong:
-            ctx.ok(rid, f, st, f"an edge without delay reads slot {lit.value}, the slot that holds the current value", facts)
+            ctx.ok(rid, f, st, f"an edge without delay reads slot {lit.value}, the slot that holds the current value", facts, label=label)
         else:
             wslot = wrong[0]
-            ctx.violation(rid, f, st, f"when the {when}, the delay becomes {lit.value} steps, but the ring buffers store the current value in slot "
+            ctx.violation(rid, f, st, f"`{norm(st)}` ({g.qualname}): when the {when}, the delay becomes {lit.value} steps, but the ring buffers "
+                                      f"store the current value in slot "
                                       f"{wslot}: as soon as another edge from the same source variable has a delay > 1 step (so the buffer is built), "
                                       f"the undelayed edge reads slot {lit.value} and receives the value of {lit.value - wslot} step(s) ago instead of "
-                                      f"the current value", facts)
+                                      f"the current value", facts, label=label)
 
 
 # ---------------------------------------------------------------------------------------------
@@ -1016,7 +1063,7 @@ def r_perm_identity(ctx, rid):
 RULES = [
     ("C09-R1", r1_ring_protocol, 11),      # 3 siblings x (order, roll, write, read) + slot agreement + Fortran hook = 14 today
     ("C09-R2", r2_capacity, 2),            # 3 today; a sibling whose list R1 rejects is skipped here
-    ("C09-R3", r3_rounding, 5),
+    ("C09-R3", r3_rounding, 3),            # the conversion + its call sites (5 today; at least one per caller: _process_delays, _add_matrix_delay)
     ("C09-R4", r4_default_delay_matches_write_slot, 2),
     ("C09-R5", r5_slot_order, 6),
     ("C09-R6", r_perm_identity, 1),
